@@ -160,6 +160,17 @@ fn main() {
                 }).collect();
                 format!("n={} toks={}", toks.len(), items.join("|"))
             }
+            // second-generation lexer: every token as its XML element (kind, value type, payload, source text), hex-encoded,
+            // and the lexing errors with their codes (C14: tokens by construction, agreement of the two lexers)
+            "deltatok" => {
+                let tokens = penne::delta::lexer::lex(&bytes, "replay.pn");
+                let src = String::from_utf8_lossy(&bytes).to_string();
+                let codes: Vec<u16> = tokens.errors().map(|e| e.codes()).unwrap_or_default();
+                let hex = |s: String| s.bytes().map(|b| format!("{:02x}", b)).collect::<String>();
+                let valid_utf8 = std::str::from_utf8(&bytes).is_ok();
+                let lines: Vec<String> = if valid_utf8 { tokens.as_xml(&src).collect() } else { Vec::new() };
+                format!("n={} errors={:?} toks={}", tokens.base_tokens().len(), codes, hex(lines.join("\n"))).replace(", ", ",")
+            }
             // lexing, parsing, header extraction only (no XML dump): tells a crash of the parser from a crash of the printer
             "deltaparse" => {
                 let tokens = penne::delta::lexer::lex(&bytes, "replay.pn");
